@@ -1369,10 +1369,13 @@ Proof.
     cbn [ev_name ev_value fst snd]. rewrite HA. intros Heq. apply HB. symmetry. exact Heq.
 Qed.
 
-(* validate_dynamic_job with unchanged inputs: PENDING with the deferred flag the source passes *)
-Lemma validate_rule_tie l s :
-  step_op (OpValidatePending l) s = set_sstate l SPending gen_validate_unchanged_deferred s.
-Proof. reflexivity. Qed.
+(* validate_dynamic_job with unchanged inputs (84081f2): PENDING, deferred iff a dynamic input is still
+   unusable in the recording transaction; the older shapes (flag True / no flag) generate mode 1 / 0 *)
+Lemma validate_rule_tie :
+  gen_validate_flag_mode = 2 /\
+  (forall l s, step_op2 (OpValidatePending l) s =
+               set_sstate l SPending (GraphExt.has_unusable_dynamic_input l s) s).
+Proof. split; [reflexivity|]. intros l s. reflexivity. Qed.
 
 (* After a restart every tracked variable of every attached step has its current value recorded:
    rescan_env_vars writes back EVERY row that it found changed (several variables of one step
